@@ -176,7 +176,7 @@ SWEEP_PART_OPS = (
     + [[["sameline", k]] for k in (0, 1, 2)]
     + [[["tuplerhs", k, s_]] for k in (0, 1) for s_ in ("tuple", "lambda")]
 )
-SWEEP_FILE_OPS = [[["eol", "crlf"]], [["eol", "mixed"]], [["nofinalnl"]], [["bom"]], [["formfeed"]], [["prepend", 2, "docstring"]], [["prepend", 1, "comment"], ["append", 1]]]
+SWEEP_FILE_OPS = [[["scopes"]], [["eol", "crlf"]], [["eol", "mixed"]], [["nofinalnl"]], [["bom"]], [["formfeed"]], [["prepend", 2, "docstring"]], [["prepend", 1, "comment"], ["append", 1]]]
 
 
 def _spread(items, k, offset):
